@@ -30,6 +30,9 @@ struct TraceBus {
     /// acknowledgement (0 none, 1 a state report, 2 the ack of another operation, 3 the ack from another address)
     nack: Option<(usize, u8)>,
     pub log: Vec<(RefMsg, Option<RefMsg>)>,
+    /// (attempt, state): the result query of that attempt is answered with this state from the sign's own address instead
+    /// of received / failed (canned responder only) — the controller stops there; nothing more may be sent
+    odd_result: Option<(usize, usize)>,
     /// the bus fails ONCE, at the message with this index in the log (with the error flavour given), after logging it
     fail_once_at: Option<(usize, u8)>,
     pub failed: bool,
@@ -84,6 +87,13 @@ impl SignBus for TraceBus {
                 RefMsg::Request(a, o) if *a == self.own => Some(RefMsg::Ack(self.own, *o)),
                 _ => None,
             },
+        };
+        let reply = match (&m, self.odd_result, self.in_transfer) {
+            (RefMsg::Query(a), Some((k, st)), Some(_)) if *a == self.own && k == self.attempts_seen && self.inner.is_none() && self.log.last().map(|l| matches!(l.0, RefMsg::Count(_))).unwrap_or(false) => {
+                self.failed = true; // (the call is cut short here: what follows is judged as after a bus failure)
+                Some(RefMsg::Report(self.own, st))
+            }
+            _ => reply,
         };
         let reply = match (&m, self.nack) {
             (RefMsg::Request(a, o), Some((k, kind))) if (*o == O_RECV_CFG || *o == O_RECV_PIX) && k == self.attempts_seen => match kind {
@@ -266,6 +276,7 @@ fn run_case(c: &Case, rep: &mut Report) {
         log: vec![],
         fail_once_at: None,
         failed: false,
+        odd_result: None,
     }));
     let sign = ctl::mk_sign(tb.clone(), c.own, c.ty);
     let mut prior_bad = vec![];
@@ -292,6 +303,15 @@ fn run_case(c: &Case, rep: &mut Report) {
     // the call ends there, and what was sent up to there is a prefix of the prescribed stream — a chunk is never handed
     // over twice, whatever the error looks like
     let h = fnv(c.sig().as_bytes());
+    // one canned call in nine has the result query of its first or second attempt answered "still in progress" (or another
+    // state that is neither received nor failed) by the sign itself: the controller gives up, and sends nothing more —
+    // least of all data without a new request
+    if c.nack.is_none() && !c.virtual_sign && h % 9 == 4 {
+        let states = [S_PIX_PROG, S_CFG_PROG, S_UNCONF, S_LOADED, S_SHOWING];
+        let mut b = tb.borrow_mut();
+        b.odd_result = Some((1 + (h >> 12) as usize % (c.fail_attempts + 1).min(2), states[(h >> 16) as usize % states.len()]));
+        rep.count("calls_whose_result_query_was_answered_with_an_odd_state");
+    }
     if c.nack.is_none() && c.fail_attempts == 0 && h % 7 == 3 {
         let mut b = tb.borrow_mut();
         b.fail_once_at = Some((b.log.len() + (h >> 8) as usize % 24, (h >> 20) as u8 % crate::doubles::N_BUS_ERROR_FLAVOURS));
@@ -407,7 +427,7 @@ fn run_case(c: &Case, rep: &mut Report) {
         rep.count("calls_that_met_a_one_shot_bus_error");
         bad.retain(|(_, what)| !(what.ends_with("end of log") || what.ends_with("came nothing") || what.starts_with("no acknowledged transfer request")));
         if let SignOut::Ok | SignOut::OkStyle { .. } = &out {
-            bad.push(("success_despite_bus_error", "the bus failed during the call, yet the call returned success".into()));
+            bad.push(("success_despite_bus_error", "the bus failed during the call (or the sign answered a result query with a state that is neither received nor failed), yet the call returned success".into()));
         }
     }
     for (class, what) in prior_bad {
@@ -657,6 +677,7 @@ pub fn run(ctx: &Ctx) -> Outcome {
         floor("page lists whose iterator borrows the bus (shared and mutably) every time a page is pulled", report.get("page_lists_whose_iterator_looks_at_the_bus") > 500, report.get("page_lists_whose_iterator_looks_at_the_bus")),
         floor("page lists of an application that holds on to the bus between pulls (a panic on the borrow is its own fault; a call that returns must have sent a proper transfer)", report.get("page_lists_that_hold_on_to_the_bus_between_pulls") > 200, format!("{} lists, {} calls panicked", report.get("page_lists_that_hold_on_to_the_bus_between_pulls"), report.get("calls_that_panicked_because_the_application_held_the_bus"))),
         floor("page sources that take 2.6 s to come up with their second page", report.get("page_sources_that_take_seconds_between_pages") == 2, report.get("page_sources_that_take_seconds_between_pages")),
+        floor("calls whose result query was answered in-progress / unconfigured / page loaded / showing by the sign itself", report.get("calls_whose_result_query_was_answered_with_an_odd_state") > 200, report.get("calls_whose_result_query_was_answered_with_an_odd_state")),
         floor("calls that met a bus failing once, somewhere in the call", report.get("calls_that_met_a_one_shot_bus_error") > 500, report.get("calls_that_met_a_one_shot_bus_error")),
         floor("page lists handed over as adaptor iterators", report.get("page_lists_passed_as_adaptor_iterators") > 1000, report.get("page_lists_passed_as_adaptor_iterators")),
         floor("multi-page transfers", report.get("multi_page_transfers") > 0, report.get("multi_page_transfers")),
